@@ -182,6 +182,8 @@ class TriangularLinearOperator(LinearOperator, _TriangularLinearOperatorBase):
         if inv_quad_rhs is None:
             inv_quad_term = torch.empty(0, dtype=self.dtype, device=self.device)
         else:
+            if inv_quad_rhs.dim() == 1:
+                inv_quad_rhs = inv_quad_rhs.unsqueeze(-1)
             # triangular, solve is cheap
             inv_quad_term = (inv_quad_rhs * self.solve(inv_quad_rhs)).sum(dim=-2)
         if logdet:
